@@ -1251,6 +1251,18 @@ class C17(Check):
         out += [gen_case(rng, "thorough" if tier == "thorough" else "quick") for _ in range(n)]
         return out
 
+    def evaluate(self, cases):
+        impl_outs, model_outs = super().evaluate(cases)
+        # nothing in these programs can hang: a worker that did not answer in time was starved on a loaded
+        # machine - ask again, alone and with a generous limit, before believing it
+        from .common import run_impl
+        late = [i for i, o in enumerate(impl_outs) if isinstance(o, dict) and (o.get("hang") or o.get("crash"))]
+        if late:
+            again = run_impl(self.impl, [cases[i] for i in late], 300.0, jobs=1, extra_env=self.impl_env)
+            for i, o in zip(late, again):
+                impl_outs[i] = o
+        return impl_outs, model_outs
+
     def model_line(self, case):
         if not modelled(case):
             return {"ops": [], "fuel": 1, "unmodelled": "a class name is bound twice"}
